@@ -31,26 +31,44 @@ CONSTANTS Ctxs,    \* context identifiers, 1 is the root context
 \*   3    : list, initially [7, 7]       7 : list, initially []       8 : dict, initially {}
 \*   5    : the int 0                    6 : the str ""
 \*   9    : the int 3      10 : the str "ab"      11 : the tuple (1, 2)      12 : frozenset({1})
-\* cont[b] is the object's state: the field `val` (1, 2, 4), the length (3, 7, 8), 0 for the
-\* immutable ones (5, 6, 9 .. 12), whose value never changes whatever is done through a proxy.
-KindOf(b) == CASE b \in {1, 4} -> "box" [] b = 2 -> "fbox" [] b \in {3, 7} -> "list"
-               [] b = 8 -> "dict" [] b \in {5, 9} -> "int" [] b \in {6, 10} -> "str"
+\* Objects that are EQUAL (==) BUT NOT IDENTICAL to another one of the universe -- the model binds
+\* identities; that two objects compare equal must never make one stand in for the other:
+\*   13 : a second []  (== 7)      14 : a second {}  (== 8)      15, 16 : two set()
+\*   17, 18 : two plain objects with a field `val` whose __eq__ says True to each other
+\*   19 : True    20 : the int 1    21 : the float 1.0            (19 == 20 == 21)
+\*   22, 23 : two str "e q!" built at run time (not interned)
+\* cont[b] is the object's state: the field `val` (1, 2, 4, 17, 18), the length (3, 7, 8, 13 .. 16),
+\* 0 for the immutable ones, whose value never changes whatever is done through a proxy.
+KindOf(b) == CASE b \in {1, 4, 17, 18} -> "box" [] b = 2 -> "fbox" [] b \in {3, 7, 13} -> "list"
+               [] b \in {8, 14} -> "dict" [] b \in {15, 16} -> "set"
+               [] b \in {5, 9, 19, 20} -> "int" [] b = 21 -> "float" [] b \in {6, 10, 22, 23} -> "str"
                [] b = 11 -> "tuple" [] OTHER -> "fset"
 Init0(b)  == IF b = 3 THEN 2 ELSE 0
-IntVal(b) == IF b = 9 THEN 3 ELSE 0
-FixedSize(b) == CASE b \in {10, 11} -> 2 [] b = 12 -> 1 [] OTHER -> 0
-Immutable(b) == KindOf(b) \in {"int", "str", "tuple", "fset"}
+IntVal(b) == CASE b = 9 -> 3 [] b \in {19, 20, 21} -> 1 [] OTHER -> 0
+FixedSize(b) == CASE b \in {10, 11} -> 2 [] b = 12 -> 1 [] b \in {22, 23} -> 4 [] OTHER -> 0
+Immutable(b) == KindOf(b) \in {"int", "float", "str", "tuple", "fset"}
+NumLike(b)   == KindOf(b) \in {"int", "float"}
+\* a == b in Python although a and b may be different objects (where the model can tell: the items
+\* of non-empty lists are not modelled)
+ValEq(cont, a, b) ==
+  \/ a = b
+  \/ (NumLike(a) /\ NumLike(b) /\ IntVal(a) = IntVal(b))
+  \/ (KindOf(a) = KindOf(b) /\
+       CASE KindOf(a) \in {"list", "dict", "set"} -> cont[a] = 0 /\ cont[b] = 0
+         [] KindOf(a) = "box" -> {a, b} = {17, 18}
+         [] KindOf(a) = "str" -> FixedSize(a) = FixedSize(b) /\ (FixedSize(a) = 4 \/ FixedSize(a) = 0)
+         [] OTHER -> FALSE)
 \* result codes of reads that fail: the exception class
 RTE == 0 - 1      \* RuntimeError (the proxy says it is unbound)
 TYE == 0 - 2      \* TypeError
 IXE == 0 - 3      \* IndexError
 KYE == 0 - 4      \* KeyError
-SizeOf(cont, b) == CASE KindOf(b) \in {"list", "dict"} -> cont[b]
+SizeOf(cont, b) == CASE KindOf(b) \in {"list", "dict", "set"} -> cont[b]
                      [] KindOf(b) \in {"str", "tuple", "fset"} -> FixedSize(b)
                      [] OTHER -> TYE                                  \* len() of an int / plain object
 TruthyC(cont, b) == CASE KindOf(b) = "box" -> TRUE
                       [] KindOf(b) = "fbox" -> cont[b] # 0
-                      [] KindOf(b) = "int" -> IntVal(b) # 0
+                      [] NumLike(b) -> IntVal(b) # 0
                       [] OTHER -> SizeOf(cont, b) # 0
 \* what Python answers when these are applied to the object itself (the proxy must answer the same,
 \* computed on the object bound in the accessing context):
@@ -61,12 +79,13 @@ GetItemCode(cont, b) ==        \* obj[0]: 1 = an item
 InCodes(cont, b) ==            \* 7 in obj  (0 / 1; the items of a list are not modelled)
   CASE KindOf(b) \in {"tuple", "fset", "dict"} -> {0}
     [] KindOf(b) = "list" -> IF cont[b] = 0 THEN {0} ELSE {0, 1}
+    [] KindOf(b) = "set" -> IF cont[b] = 0 THEN {0} ELSE {1}      \* (only 7 is ever put into it)
     [] OTHER -> {TYE}
 AddCode(cont, b) ==            \* obj + obj: the int, or the length of the concatenation
-  CASE KindOf(b) = "int" -> 2 * IntVal(b)
+  CASE NumLike(b) -> 2 * IntVal(b)
     [] KindOf(b) \in {"str", "tuple", "list"} -> 2 * SizeOf(cont, b)
     [] OTHER -> TYE
-HashCode(b) == IF KindOf(b) \in {"list", "dict"} THEN TYE ELSE 1
+HashCode(b) == IF KindOf(b) \in {"list", "dict", "set"} THEN TYE ELSE 1
 
 TOP    == "@top"                 \* proxy kind: stack() -- the top of the LocalStack
 PKinds == Names \cup {TOP}       \* proxy kinds: ns(name) for each name, and stack()
@@ -91,6 +110,7 @@ MwVariants == 0..3
 MwForms    == {"make", "deco"}
 MwPush     == Boxes \cup {NoBox}
 MwMake     == {"make"}
+MwClosed   == {1}
 MwNoPush   == {NoBox}
 IopQuick   == {1, 5}
 \* release paths: release_local(local) / local.__release_local__() for the namespace and the stack,
@@ -191,28 +211,31 @@ Released(S, o) == CASE o.op \in {"release", "release_dunder"} -> {"ns"}
 \*   the name stays the proxy.  So an immutable object is unaffected, a list is extended in place,
 \*   and an operand of the wrong type raises what Python raises for the object itself.
 IopExc(kd, op, v) ==           \* "" = no exception
-  CASE op = "proxy_iadd" -> IF \/ (kd = "int" /\ v = 1) \/ (kd = "str" /\ v = 2) \/ (kd = "tuple" /\ v = 3)
+  CASE op = "proxy_iadd" -> IF \/ (kd \in {"int", "float"} /\ v = 1) \/ (kd = "str" /\ v = 2) \/ (kd = "tuple" /\ v = 3)
                                \/ (kd = "list" /\ v # 1) THEN "" ELSE "TypeError"
-    [] op = "proxy_isub" -> IF (kd = "int" /\ v = 1) \/ (kd = "fset" /\ v = 4) THEN "" ELSE "TypeError"
-    [] op = "proxy_ior"  -> IF (kd = "int" /\ v = 1) \/ (kd = "fset" /\ v = 4) THEN ""
+    [] op = "proxy_isub" -> IF (kd \in {"int", "float"} /\ v = 1) \/ (kd \in {"fset", "set"} /\ v = 4) THEN "" ELSE "TypeError"
+    [] op = "proxy_ior"  -> IF (kd = "int" /\ v = 1) \/ (kd \in {"fset", "set"} /\ v = 4) THEN ""
                             ELSE IF kd = "dict" /\ v = 2 THEN "ValueError" ELSE "TypeError"
-    [] op = "proxy_imul" -> IF kd \in {"int", "str", "tuple", "list"} THEN "" ELSE "TypeError"
+    [] op = "proxy_imul" -> IF kd \in {"int", "float", "str", "tuple", "list"} THEN "" ELSE "TypeError"
 ObjRet(cont, b, o) ==
   LET kd == KindOf(b) IN
   CASE o.op \in IopOps -> IF IopExc(kd, o.op, o.v) = "" THEN OkR ELSE ExcR(IopExc(kd, o.op, o.v))
     [] o.op = "proxy_mutate" -> IF kd \in {"box", "fbox"} THEN OkR ELSE ExcR("AttributeError")
     [] o.op = "proxy_pop"    -> IF kd = "list" THEN (IF cont[b] > 0 THEN OkR ELSE ExcR("IndexError"))
+                                ELSE IF kd = "set" THEN (IF cont[b] > 0 THEN OkR ELSE ExcR("KeyError"))
                                 ELSE IF kd = "dict" THEN ExcR("TypeError") ELSE ExcR("AttributeError")
-    [] o.op = "proxy_clear"  -> IF kd \in {"list", "dict"} THEN OkR ELSE ExcR("AttributeError")
+    [] o.op = "proxy_clear"  -> IF kd \in {"list", "dict", "set"} THEN OkR ELSE ExcR("AttributeError")
 ObjNext(cont, b, o) ==
   LET kd == KindOf(b) IN
   CASE o.op = "proxy_iadd" -> IF kd = "list" /\ o.v # 1
                               THEN [cont EXCEPT ![b] = @ + (IF o.v = 5 THEN 2 ELSE 1)] ELSE cont
     [] o.op = "proxy_imul" -> IF kd = "list" THEN [cont EXCEPT ![b] = 2 * @] ELSE cont
-    [] o.op \in {"proxy_isub", "proxy_ior"} -> cont
+    \* set |= frozenset({7}) / set -= frozenset({7}) work in place
+    [] o.op = "proxy_ior"  -> IF kd = "set" /\ o.v = 4 THEN [cont EXCEPT ![b] = 1] ELSE cont
+    [] o.op = "proxy_isub" -> IF kd = "set" /\ o.v = 4 THEN [cont EXCEPT ![b] = 0] ELSE cont
     [] o.op = "proxy_mutate" -> IF kd \in {"box", "fbox"} THEN [cont EXCEPT ![b] = o.v] ELSE cont
-    [] o.op = "proxy_pop"    -> IF kd = "list" /\ cont[b] > 0 THEN [cont EXCEPT ![b] = @ - 1] ELSE cont
-    [] o.op = "proxy_clear"  -> IF kd \in {"list", "dict"} THEN [cont EXCEPT ![b] = 0] ELSE cont
+    [] o.op = "proxy_pop"    -> IF kd \in {"list", "set"} /\ cont[b] > 0 THEN [cont EXCEPT ![b] = @ - 1] ELSE cont
+    [] o.op = "proxy_clear"  -> IF kd \in {"list", "dict", "set"} THEN [cont EXCEPT ![b] = 0] ELSE cont
 
 \* result of the call
 RetOf(S, o) ==
